@@ -107,16 +107,32 @@ type chanViolation struct {
 func newChanInst() *chanInst {
 	in := &chanInst{wire: wirePool.Get().(*bytes.Buffer)}
 	in.wire.Reset()
-	prio := []int{1, 5}
-	for i := 0; i < 2; i++ {
-		mk := func(recvBuf int) *p2p.Channel {
-			return p2p.VerifNewChannel(nil, &p2p.ChannelDescriptor{ID: byte(0x20 + i), Priority: prio[i], SendQueueCapacity: chanSendQueueCap, RecvBufferCapacity: recvBuf, RecvMessageCapacity: chanRecvMsgCap})
-		}
-		// RecvBufferCapacity is only the initial capacity of the reassembly buffer
-		in.snd[i], in.rcv[i] = mk(1), mk(1152)
-		in.sh[i].sending = -1
-	}
+	in.sh[0].sending, in.sh[1].sending = -1, -1
 	return in
+}
+
+var chanPrio = []int{1, 5}
+
+// mkChannel makes one end of channel i with the real constructor.
+// RecvBufferCapacity is only the initial capacity of the reassembly buffer.
+func mkChannel(i, recvBuf int) *p2p.Channel {
+	return p2p.VerifNewChannel(nil, &p2p.ChannelDescriptor{ID: byte(0x20 + i), Priority: chanPrio[i], SendQueueCapacity: chanSendQueueCap, RecvBufferCapacity: recvBuf, RecvMessageCapacity: chanRecvMsgCap})
+}
+
+// sender / receiver: the channel objects are created on first use (an untouched
+// channel is in its initial state either way).
+func (in *chanInst) sender(i int) *p2p.Channel {
+	if in.snd[i] == nil {
+		in.snd[i] = mkChannel(i, 1)
+	}
+	return in.snd[i]
+}
+
+func (in *chanInst) receiver(i int) *p2p.Channel {
+	if in.rcv[i] == nil {
+		in.rcv[i] = mkChannel(i, 1152)
+	}
+	return in.rcv[i]
 }
 
 // message contents are a function of (channel, sequence number, size); they are
@@ -211,9 +227,9 @@ func (in *chanInst) apply(op int) (obs string, viol *chanViolation) {
 			// per call, so it is used for the operation under test only and never on
 			// a full queue (where it would block for those 10 s)
 			msg = append([]byte(nil), keep...)
-			ok = in.snd[ch].VerifSendBytes(msg)
+			ok = in.sender(ch).VerifSendBytes(msg)
 		} else {
-			ok = in.snd[ch].VerifTrySendBytes(msg)
+			ok = in.sender(ch).VerifTrySendBytes(msg)
 		}
 		if ok {
 			in.nextSeq[ch]++
@@ -223,7 +239,7 @@ func (in *chanInst) apply(op int) (obs string, viol *chanViolation) {
 		return fmt.Sprintf("send/%s/accepted=%v", sizeClass(size), ok), nil
 	case op == opPump0 || op == opPump1 || op == opPoll0 || op == opPoll1:
 		ch := (op - opPump0) % 2
-		pend := in.snd[ch].VerifIsSendPending()
+		pend := in.sender(ch).VerifIsSendPending()
 		s := &in.sh[ch]
 		if pend && s.sending < 0 && len(s.q) > 0 {
 			s.sending, s.sent, s.q = s.q[0], 0, s.q[1:]
@@ -238,7 +254,7 @@ func (in *chanInst) apply(op int) (obs string, viol *chanViolation) {
 			return "pump/idle", nil
 		}
 		before := in.wire.Len()
-		n, err := in.snd[ch].VerifWriteMsgPacketTo(in.wire)
+		n, err := in.sender(ch).VerifWriteMsgPacketTo(in.wire)
 		if err != nil {
 			return "", &chanViolation{kind: "write-error", size: "any", detail: fmt.Sprintf("writeMsgPacketTo into a buffer failed: %v", err)}
 		}
@@ -276,7 +292,7 @@ func (in *chanInst) apply(op int) (obs string, viol *chanViolation) {
 		if ch < 0 || ch > 1 {
 			return "", &chanViolation{kind: "codec", size: "any", detail: fmt.Sprintf("unknown channel id %x on the wire", pk.ChannelID)}
 		}
-		msgBytes, err := in.rcv[ch].VerifRecvMsgPacket(pk)
+		msgBytes, err := in.receiver(ch).VerifRecvMsgPacket(pk)
 		if len(in.pending[ch]) == 0 {
 			return "", &chanViolation{chp1: ch + 1, kind: "spurious-packet", size: "any", detail: "a packet arrived on a channel with no message outstanding"}
 		}
@@ -456,11 +472,14 @@ func (c *ctx) exploreChan(maxDepth int, deadline time.Time, progress func(string
 	st.states = 1
 	frontier := [][]byte{{}}
 	for depth := 1; depth <= maxDepth; depth++ {
-		// a level takes about 6x the time of the previous one
-		if !deadline.IsZero() && depth > 6 && time.Now().Add(6*lastLevel).After(deadline) {
+		// a level takes about 5.5x the time of the previous one; a level that
+		// nevertheless runs past the deadline is abandoned (and not counted)
+		if !deadline.IsZero() && depth > 6 && time.Now().Add(lastLevel*11/2).After(deadline) {
 			break
 		}
 		levelStart := time.Now()
+		var aborted int32
+		before := st
 		type nxt struct {
 			mu sync.Mutex
 			m  map[[16]byte][]byte
@@ -470,6 +489,10 @@ func (c *ctx) exploreChan(maxDepth int, deadline time.Time, progress func(string
 			next[i] = &nxt{m: map[[16]byte][]byte{}}
 		}
 		core.Par(len(frontier), func(i int) {
+			if !deadline.IsZero() && depth > 6 && (atomic.LoadInt32(&aborted) != 0 || time.Now().After(deadline.Add(30*time.Second))) {
+				atomic.StoreInt32(&aborted, 1)
+				return
+			}
 			h := frontier[i]
 			ops := make([]int, len(h)+1)
 			for j, b := range h {
@@ -573,6 +596,12 @@ func (c *ctx) exploreChan(maxDepth int, deadline time.Time, progress func(string
 				cur.release()
 			}
 		})
+		if aborted != 0 {
+			// incomplete level: keep the violations it found, not its counts
+			before.violating = st.violating
+			st = before
+			break
+		}
 		frontier = frontier[:0]
 		for i := range next {
 			for k, h := range next[i].m {
